@@ -4,7 +4,7 @@
 // in small steps (the throttle's own tick task fires from the real scheduler), bytes received by
 // the peer per step measured together with the real throttle state.
 //
-// Case:  rate=<B/s> secs=<n> step=<us> [change=<sec>:<rate>[,<sec>:<rate>...]] [slave=<B/s>]
+// Case:  rate=<B/s> secs=<n> step=<us> [change=<sec>:<rate>[,<sec>:<rate>...]] [slave=<B/s>] [idle=<secs>]
 //   rate 0 = unlimited.  slave=<r>: the torrent uses a slave throttle of the global one with rate r.
 // Output: one token per step  "<t_us>:<raw>:<pieces>:<un>:<o>:<ua>:<uu>:<nA>:<nI>:<lt>:<rate>"
 //   t_us virtual time since the measurement began, raw = bytes the peer received in the step,
@@ -83,6 +83,7 @@ static std::string run_case(Session& S, const std::string& line) {
   int secs = std::stoi(kv["secs"]);
   int64_t step = std::stoll(kv["step"]);
   bool use_slave = kv.count("slave") != 0;
+  int idle = kv.count("idle") ? std::stoi(kv["idle"]) : 0;   // seconds without any request at the beginning
   std::map<int, uint64_t> changes;
   if (kv.count("change")) {
     std::stringstream ss(kv["change"]);
@@ -145,7 +146,7 @@ static std::string run_case(Session& S, const std::string& line) {
   for (int sec = 0; sec < secs; sec++) {
     if (changes.count(sec)) torrent::up_throttle_global()->set_max_rate(changes[sec]);
     for (int64_t t = 0; t < 1000000; t += step) {
-      top_up();
+      if (sec >= idle) top_up();
       S.advance_us(step);
       pump(S, {&P});
       elapsed += step;
